@@ -637,6 +637,25 @@ pub fn contexts() -> Vec<Context> {
         ("□\\b", cat(vec![h0(), Node::Assert(A::WordB)])),
         ("\\B□\\B", cat(vec![Node::Assert(A::NotWordB), h0(), Node::Assert(A::NotWordB)])),
     ];
+    // an atomic group (and a look-ahead) whose only choice point is a quantified back-reference, in
+    // every quantifier form the compiler lowers differently (greedy/lazy, with and without the
+    // empty-iteration guard, counted), followed by something that asks for the characters back
+    for (qname, lo, hi, mode) in [
+        ("*", 0u32, None, Mode::Greedy),
+        ("*?", 0, None, Mode::Lazy),
+        ("+?", 1, None, Mode::Lazy),
+        ("??", 0, Some(1u32), Mode::Lazy),
+        ("{0,2}?", 0, Some(2), Mode::Lazy),
+        ("{1,2}", 1, Some(2), Mode::Greedy),
+    ] {
+        let q = |n: Node| rep(n, lo, hi, mode);
+        let name: &'static str = Box::leak(format!("(□)(?>\\1{})□'b", qname).into_boxed_str());
+        v.push((name, cat(vec![grp(h0()), atomic(q(Node::Backref(1))), h1(), y()])));
+        let name: &'static str = Box::leak(format!("(□)(?=(\\1{}))\\2□'b", qname).into_boxed_str());
+        v.push((name, cat(vec![grp(h0()), la(grp(q(Node::Backref(1)))), Node::Backref(2), h1(), y()])));
+        let name: &'static str = Box::leak(format!("(□)(?>(?:\\1|□'){})ab", qname).into_boxed_str());
+        v.push((name, cat(vec![grp(h0()), atomic(q(alt(vec![Node::Backref(1), h1()]))), x(), y()])));
+    }
     v.drain(..)
         .map(|(name, node)| {
             let holes = if node.any(&|n| matches!(n, Node::Hole(1))) { 2 } else { 1 };
